@@ -144,6 +144,11 @@ func build(aged bool) *scen {
 	})
 	tx("gov:del-planB", func(s *scen) chain.TxResult { return s.w.DelPlanGov("planb") })
 	blk("slash(val,1/2)+block", func(s *scen) string {
+		// the slashing module only slashes validators that are not unbonded (evidence against an unbonded
+		// validator is ignored); after a slash the validator may have lost its power and been unbonded
+		if v, ok := s.w.Keepers.StakingKeeper.GetValidator(s.w.Ctx, sdk.ValAddress(s.val.Addr)); !ok || v.IsUnbonded() {
+			return "__illegal__"
+		}
 		s.w.BeginBlockInject = func(ctx sdk.Context) {
 			s.w.Keepers.SlashingKeeper.Slash(ctx, sdk.GetConsAddress(s.val.PubKey), sdk.NewDecWithPrec(5, 1), 1, ctx.BlockHeight()-1)
 		}
@@ -338,6 +343,9 @@ func (s *scen) Apply(op int) bfs.Step {
 		obs = "tx-ok"
 	} else {
 		p := o.blk(s)
+		if p == "__illegal__" {
+			return bfs.Step{Accepted: false, Obs: "illegal-block-op"}
+		}
 		if p != "" {
 			if chain.IsMockBankPanic(p) {
 				viol = append(viol, ev.Violation{Property: "C10", Key: "block-overdraft", What: "a payout/refill in block processing overdrew an account (" + o.name + "): " + firstLine(p)})
